@@ -1,1 +1,117 @@
-import Simfile.Model.Objects
+/-
+C04: what the loaders produce lies in the serializers' domain, so load → save → load is the identity
+(SM) / the identity up to `notesLast` (SSC), for ARBITRARY parameter lists.
+-/
+import Simfile.Props.C01
+import Simfile.Props.C02
+import Simfile.Lemmas.LoadRules
+namespace Simfile.C04
+open Simfile Simfile.O
+
+/-- 13. every successfully loaded SM simfile is in `DomSM`. No hypothesis on the keys is needed: the
+model's `upper` is the ASCII one, which is idempotent (`O.upper_upper`). -/
+theorem loaded_in_dom_sm (ps : List Param) (s : SMSimfile) (h : loadSM ps = .ok s) : C01.DomSM s := by
+  obtain ⟨hb, rfl⟩ := loadSM_ok ps s h
+  refine ⟨WF_dictOf _, upper_of_mem_keys_dictOf _, ?_, ?_⟩
+  · intro k hk
+    obtain ⟨p, hp, rfl⟩ := mem_keys_dictOf _ k hk
+    have := (List.mem_filter.mp hp).2
+    simpa [isNotes] using this
+  · intro c hc
+    obtain ⟨p, hp, rfl⟩ := List.mem_map.mp hc
+    have hp' := List.mem_filter.mp hp
+    have hbad : badChart p = false := by
+      rw [List.any_eq_false] at hb
+      simpa using hb p hp'.1
+    simp only [badChart, hp'.2, Bool.true_and, decide_eq_false_iff_not] at hbad
+    obtain ⟨a, b, c⟩ := smChartOf_dom p.comps.tail hbad
+    exact ⟨a, b, c⟩
+
+/-- 14. load → save → load gives the same SM simfile -/
+theorem load_save_load_sm (ps : List Param) (s : SMSimfile) (h : loadSM ps = .ok s) :
+    loadSM (paramsOf (serSM s)) = .ok s :=
+  C01.roundtrip_params s (loaded_in_dom_sm ps s h)
+
+/-- saving the reloaded simfile writes the same items again -/
+theorem second_save_noop (ps : List Param) (s : SMSimfile) (h : loadSM ps = .ok s) :
+    (loadSM (paramsOf (serSM s))).map serSM = .ok (serSM s) := by
+  rw [load_save_load_sm ps s h]; rfl
+
+/-- through text, for any tokenizer satisfying the contract -/
+theorem load_save_load_sm_text (M : Msd) (hM : M.Contract) (ps : List Param) (s : SMSimfile)
+    (h : loadSM ps = .ok s) (hs : safeDoc (serSM s) = true) (strict : Bool) :
+    (M.tokenize strict (M.renderDoc (serSM s))).bind loadSM = .ok s :=
+  C01.roundtrip M hM s (loaded_in_dom_sm ps s h) hs strict
+
+/-- a loaded SSC simfile satisfies everything in `DomSSC` except that a chart may lack note data -/
+theorem loaded_in_dom_ssc (ps : List Param) (hnotes : ∀ c ∈ (loadSSC ps).charts,
+    ∃ n, c.props.get? (notesKey c) = some (some n)) : C02.DomSSC (loadSSC ps) := by
+  rw [loadSSC_closed] at hnotes ⊢
+  refine ⟨WF_dictOf _, upper_of_mem_keys_dictOf _,
+    ne_ND_of_mem_keys_dictOf _ (segs_fst_noND ps), ?_⟩
+  intro c hc
+  have hn := hnotes c hc
+  obtain ⟨g, hg, rfl⟩ := List.mem_map.mp hc
+  exact ⟨WF_dictOf _, upper_of_mem_keys_dictOf _,
+    ne_ND_of_mem_keys_dictOf _ (segs_snd_noND ps g hg), hn⟩
+
+/-- the part of `DomSSC` that holds for every loaded SSC simfile -/
+theorem loaded_ssc_keys (ps : List Param) :
+    (loadSSC ps).props.WF ∧ (∀ k ∈ (loadSSC ps).props.keys, upper k = k ∧ k ≠ kNOTEDATA) ∧
+    ∀ c ∈ (loadSSC ps).charts, c.props.WF ∧ ∀ k ∈ c.props.keys, upper k = k ∧ k ≠ kNOTEDATA := by
+  rw [loadSSC_closed]
+  refine ⟨WF_dictOf _, fun k hk => ⟨upper_of_mem_keys_dictOf _ k hk,
+    ne_ND_of_mem_keys_dictOf _ (segs_fst_noND ps) k hk⟩, ?_⟩
+  intro c hc
+  obtain ⟨g, hg, rfl⟩ := List.mem_map.mp hc
+  exact ⟨WF_dictOf _, fun k hk => ⟨upper_of_mem_keys_dictOf _ k hk,
+    ne_ND_of_mem_keys_dictOf _ (segs_snd_noND ps g hg) k hk⟩⟩
+
+/-- load → save → load gives the same SSC simfile with each chart's note data moved last -/
+theorem load_save_load_ssc (ps : List Param) (hnotes : ∀ c ∈ (loadSSC ps).charts,
+    ∃ n, c.props.get? (notesKey c) = some (some n)) :
+    (serSSC (loadSSC ps)).map (fun is => loadSSC (paramsOf is)) = .ok (loadSSC ps).notesLast :=
+  C02.roundtrip_params _ (loaded_in_dom_ssc ps hnotes)
+
+theorem notesLast_notesLast (s : SSCSimfile) : s.notesLast.notesLast = s.notesLast := C02.notesLast_idem s
+
+theorem serSSC_notesLast (s : SSCSimfile) : serSSC s.notesLast = serSSC s := C02.reserialize_stable s
+
+/-- so the second save writes the same items as the first -/
+theorem second_save_noop_ssc (ps : List Param) (hnotes : ∀ c ∈ (loadSSC ps).charts,
+    ∃ n, c.props.get? (notesKey c) = some (some n)) :
+    (serSSC (loadSSC ps)).bind (fun is => serSSC (loadSSC (paramsOf is))) = serSSC (loadSSC ps) := by
+  have h := load_save_load_ssc ps hnotes
+  have hd := C02.serSSC_eq _ (loaded_in_dom_ssc ps hnotes)
+  rw [hd] at h ⊢
+  have h' : loadSSC (paramsOf (sscItems (loadSSC ps))) = (loadSSC ps).notesLast := Except.ok.inj h
+  show serSSC (loadSSC (paramsOf (sscItems (loadSSC ps)))) = _
+  rw [h', serSSC_notesLast, hd]
+
+/-! ### examples: the hypotheses are met by parameter lists outside the serializers' image -/
+
+def exPs : List Param :=
+  [⟨["title".toList, " a:b ".toList]⟩, ⟨["Artist".toList]⟩, ⟨["TITLE".toList, "b".toList, "c".toList]⟩,
+   ⟨["notes".toList, "s".toList, " d ".toList, "x".toList, "1".toList, "r".toList, "\n00\n".toList,
+     "extra".toList]⟩,
+   ⟨["displaybpm".toList, "1".toList, "2".toList]⟩]
+
+example : ∃ s, loadSM exPs = .ok s := by
+  rcases loadSM_cases exPs with ⟨hb, _⟩ | ⟨_, hs⟩
+  · exact absurd hb (by decide +kernel)
+  · exact hs
+
+def exSSCPs : List Param :=
+  [⟨["version".toList, "0.83".toList]⟩, ⟨["title".toList, "a".toList]⟩, ⟨["NoteData".toList, [], "x".toList]⟩,
+   ⟨["stepstype".toList, "0".toList]⟩, ⟨["notes".toList, "0".toList]⟩, ⟨["credit".toList, "0".toList]⟩,
+   ⟨["NOTEDATA".toList]⟩, ⟨["NOTES2".toList, "1".toList]⟩, ⟨["NOTES2".toList, "2".toList]⟩,
+   ⟨["meter".toList, "2".toList]⟩]
+
+example : ∀ c ∈ (loadSSC exSSCPs).charts, ∃ n, c.props.get? (notesKey c) = some (some n) :=
+  fun c hc => (C02.notes_iff c).mpr
+    ((show ∀ c ∈ (loadSSC exSSCPs).charts, ((c.props.get? (notesKey c)).bind id).isSome = true from by
+      decide +kernel) c hc)
+
+example : (loadSSC exSSCPs).notesLast ≠ loadSSC exSSCPs := by decide +kernel
+
+end Simfile.C04
